@@ -131,11 +131,25 @@ def job(j):
                     genrun.add_viol(st["viol"], ({"kind": "var-cell", "type": "Ing", "refused_expected": bad, "first": ("guarded input field (%s): " % ("subscription" if sub else "query")) + mm[0][:90]},
                                        {"query": q, "variables": repr(variables), "mismatches": mm, "response": repr(resp)[:1500]}))
 
+    def integral_float_id_cells(w):
+        """an ID given as an integral JSON float denotes that integer: the resolver observes its decimal text (Scalars.tla: In(ID, fS) = sS)"""
+        idx = {render.typeref(t): i for i, t in enumerate(w.types, 1)}
+        for tys, val, exp in (("ID", 7.0, "7"), ("ID!", 1e3, "1000"), ("[ID]", [7.0, 2], ["7", "2"]), ("[ID!]!", 12.0, ["12"])):
+            ti = idx[tys]
+            st["n"] += 1
+            q = "query ($a: %s) { e%d(a: $a) }" % (tys, ti)
+            resp = w.run(q, {"a": val})
+            seen = [c[2] for c in w.calls]
+            if not isinstance(resp, dict) or resp.get("errors") or seen != [{"a": exp}]:
+                genrun.add_viol(st["viol"], ({"kind": "var-cell", "type": tys, "refused_expected": False, "first": "integral float for an ID: resolver saw %r, expected %r" % (seen, exp)},
+                                   {"query": q, "variables": repr({"a": val}), "response": repr(resp)[:800]}))
+
     def on_line(rec):
         if rec["kind"] == "itypes":
             st["w"] = inputworld.InputWorld(rec)
             if cfg.endswith("vars_0.cfg"):
                 guarded_input_cells(st["w"])
+                integral_float_id_cells(st["w"])
             return
         w = st["w"]
         if rec["kind"] == "paircell":
